@@ -80,12 +80,25 @@ func c13Cases(tier string, seed uint64) []fw.Case {
 	for _, d := range c13Defs() {
 		for a := 0; a < mvCount; a++ {
 			for b := 0; b < mvCount; b++ {
-				c := c13Case{Level: "timer", Def: d, Prefix: []int{a, b}, MaxLen: maxLen, AllCancel: tier != "thorough", Seed: seed}
+				if tier == "thorough" {
+					// finer shards: a case must stay well below the per-case watchdog
+					for e := 0; e < mvCount; e++ {
+						c := c13Case{Level: "timer", Def: d, Prefix: []int{a, b, e}, MaxLen: maxLen, Seed: seed}
+						c.Name = fmt.Sprintf("timer/%s/%s,%s,%s", d, mvNames[a], mvNames[b], mvNames[e])
+						cs = append(cs, fw.MkCase("timer", &c))
+					}
+					continue
+				}
+				c := c13Case{Level: "timer", Def: d, Prefix: []int{a, b}, MaxLen: maxLen, AllCancel: true, Seed: seed}
 				c.Name = fmt.Sprintf("timer/%s/%s,%s", d, mvNames[a], mvNames[b])
 				cs = append(cs, fw.MkCase("timer", &c))
 			}
 		}
-		c := c13Case{Level: "timer", Def: d, MaxLen: 1, AllCancel: true, Seed: seed}
+		short := 1
+		if tier == "thorough" {
+			short = 2
+		}
+		c := c13Case{Level: "timer", Def: d, MaxLen: short, AllCancel: true, Seed: seed}
 		c.Name = fmt.Sprintf("timer/%s/short", d)
 		cs = append(cs, fw.MkCase("timer", &c))
 	}
@@ -541,5 +554,6 @@ func init() {
 		Exhaustive:  func(string) bool { return true },
 		Assumptions: []string{"only mock-clock histories; the host clock (real time, timerfd) is out of reach of a deterministic oracle and is not claimed"},
 		Batch:       3,
+		WatchdogSec: 600,
 	})
 }
